@@ -119,7 +119,11 @@ func loadProgram(o loadOpts) (*Program, error) {
 		}
 	}
 	for fn := range ssautil.AllFunctions(prog) {
-		if fn.Pkg != nil && p.SSAPkg[fn.Pkg.Pkg.Path()] == fn.Pkg {
+		pk := fn.Pkg
+		if pk == nil && fn.Origin() != nil {
+			pk = fn.Origin().Pkg // instantiation of a generic function of the module
+		}
+		if pk != nil && p.SSAPkg[pk.Pkg.Path()] == pk {
 			p.Funcs[fn] = true
 			for _, b := range fn.Blocks {
 				p.NInstr += len(b.Instrs)
